@@ -167,6 +167,25 @@ func (c *Ctx) cmpHist(d *Driver, cfg *Cfg, base *string, input string, ops []Op,
 		c.Report(Finding{Class: "correspondence", What: "history start: " + diff, Case: cs, Model: mo.String(), Impl: io.String()})
 		return h, isteps, io
 	}
+	// an operation that is several steps of the value model ("D": write A's list back, then B takes a copy) is observed
+	// after its last model step
+	if io.Kind == "U" {
+		var folded []Step
+		k := 0
+		for _, o := range ops {
+			n := 1
+			if o.K == "D" {
+				n = 2
+			}
+			if k+n <= len(msteps) {
+				folded = append(folded, msteps[k+n-1])
+			}
+			k += n
+		}
+		if k == len(msteps) {
+			msteps = folded
+		}
+	}
 	if io.Kind == "U" {
 		if len(msteps) != len(isteps) {
 			c.Report(Finding{Class: "correspondence", What: fmt.Sprintf("history: model has %d steps, implementation %d", len(msteps), len(isteps)), Case: cs})
@@ -225,8 +244,14 @@ func (r *Rng) ops(n int, mix string, twoSlots bool) []Op {
 			ops = append(ops, Op{K: "r", Slot: slot, A: r.relRef()})
 		case 'p':
 			if twoSlots && haveB && r.Chance(1, 6) {
-				// SetSearchParams with the other URL's list
-				ops = append(ops, Op{K: "A", Slot: slot})
+				// SetSearchParams with the other URL's list, or with one detached copy given to both URLs
+				if r.Chance(1, 4) {
+					ops = append(ops, Op{K: "D"})
+				} else {
+					ops = append(ops, Op{K: "A", Slot: slot})
+				}
+			} else if r.Chance(1, 8) {
+				ops = append(ops, Op{K: "i", Slot: slot, W: r.Intn(2)})
 			} else {
 				ops = append(ops, r.spOp(slot))
 			}
